@@ -30,6 +30,8 @@ def shards(tier):
         {"name": "forms.sstate.np.jit", "mode": "jit", "backend": "np", "fn": "sstate", "n": 120 if q else 5000, "forms": 1},
         {"name": "forms.maps.np.jit", "mode": "jit", "backend": "np", "fn": "maps", "stride": 96 if q else 12, "forms": 1},
         {"name": "sstate.torch", "mode": "jit", "backend": "torch", "fn": "sstate", "n": 60 if q else 2000},
+        {"name": "big.np.jit", "mode": "jit", "backend": "np", "fn": "big", "n": 1 if q else 15},
+        {"name": "big.torch", "mode": "jit", "backend": "torch", "fn": "big", "n": 1 if q else 3},
     ]
     return out
 
@@ -140,6 +142,30 @@ def run_ctor(shard, rec, B):
                 ok, Q = rec.attempt("to_qutip", [name, N], lambda: S.to_qutip().full())
                 if ok:
                     rec.check("to_qutip", O.close(np.asarray(Q), want, B.tol), [name, N], True)
+    # constructors hand out fresh objects: changing one result in place must not leak into the next call
+    for N in range(1, 6):
+        for name in ("identity_map", "zero_state", "one_state", "ghz_state", "maximally_mixed_state"):
+            fn = getattr(st, name)
+            ok, a = rec.attempt("ctor.fresh", [name, N], lambda: fn(N))
+            if not ok:
+                continue
+            ref = B.gsps(a) + ((a.r,) if hasattr(a, "r") else ())
+            ref = tuple(np.array(x).copy() if hasattr(x, "shape") else x for x in ref)
+            try:
+                a.rotate_by(B.Pauli(gen.rand_nonid(rng, N), 2))
+                a.gs[0, 0] = 1 - a.gs[0, 0]
+                a.ps[0] = (a.ps[0] + 2) % 4
+                if name == "identity_map" and N >= 2:
+                    m = np.zeros(N, dtype=bool)
+                    m[0] = True
+                    fn(N).embed(B.Map(*list(O.all_maps(1))[17]), m if B.name == "np" else B.torch.tensor(m))
+            except Exception:
+                pass
+            ok, b = rec.attempt("ctor.fresh", [name, N], lambda: fn(N))
+            if ok:
+                got = B.gsps(b) + ((b.r,) if hasattr(b, "r") else ())
+                same = all((np.array_equal(x, y) if hasattr(x, "shape") else x == y) for x, y in zip(got, ref))
+                rec.check("ctor.fresh", same and b is not a, [name, N], True, expected="the documented object again", observed=_show(got[0], got[1])[:6])
     n = shard["n"]
     for t in range(n):
         N = int(rng.integers(1, 7))
@@ -261,3 +287,47 @@ def run_sstate(shard, rec, B):
                     got = type(e).__name__
                 rec.check("sstate.raises", got == "ValueError", {"N": N, "list": _show(bg[perm], bp[perm])}, True,
                           expected="ValueError", observed=got)
+
+
+def run_big(shard, rec, B):
+    """wide registers: map <-> state conversion row by row, constructors, stabilizer_state from long commuting lists
+    (judged as canonical signed groups; no dense matrices at these sizes)."""
+    rng = gen.rng_for(rec)
+    st = B.stabilizer
+    Ns = [31, 32, 33, 63, 64, 65, 70, 128, 130] if B.name == "np" else [33, 65]
+    for t in range(shard["n"]):
+        for N in Ns:
+            mg, mp = O.random_map(rng, N, nrot=N + 3)
+            for r in (None, 1, N // 2, N):
+                check_map(rec, B, mg, mp, r, rng, dense=False)
+            zg = np.zeros((N, 2 * N), dtype=np.int64)
+            zg[np.arange(N), 2 * np.arange(N) + 1] = 1
+            for name, signs in (("zero_state", 0), ("one_state", 2)):
+                ok, S = rec.attempt("ctor." + name, N, lambda: getattr(st, name)(N))
+                if ok:
+                    g, p, r = B.state(S)
+                    rec.check("ctor.%s.big" % name, r == 0 and not O.tableau_problems(g, p, r) and O.state_key(g, p, r) == (0,) + O.canon_group(zg, np.full(N, signs)),
+                              [name, N], True)
+            ok, S = rec.attempt("ctor.ghz", N, lambda: st.ghz_state(N))
+            if ok:
+                g, p, r = B.state(S)
+                gg = np.zeros((N, 2 * N), dtype=np.int64)
+                for i in range(N - 1):
+                    gg[i, 2 * i + 1] = gg[i, 2 * i + 3] = 1
+                gg[N - 1, 0::2] = 1
+                rec.check("ctor.ghz.big", r == 0 and not O.tableau_problems(g, p, r) and O.state_key(g, p, r) == (0,) + O.canon_group(gg, np.zeros(N, dtype=np.int64)), ["ghz", N], True)
+            ok, S = rec.attempt("ctor.mixed", N, lambda: st.maximally_mixed_state(N))
+            if ok:
+                g, p, r = B.state(S)
+                rec.check("ctor.mixed.big", r == N and not O.tableau_problems(g, p, r), ["mixed", N], True)
+            # stabilizer_state from L independent commuting signed stabilizers
+            L = [1, N // 2, N - 1, N][int(rng.integers(4))]
+            tg, tp, _ = O.random_tableau(rng, N, r=0, nrot=N)
+            order = rng.permutation(N)[:L]
+            gs, ps = tg[order], tp[order]
+            ok, S = rec.attempt("sstate.value", [N, L], lambda: st.stabilizer_state(B.PauliList(gs.copy(), ps.copy())))
+            if ok:
+                g, p, r = B.state(S)
+                want = (N - L,) + O.canon_group(gs, ps)
+                rec.check("sstate.value", not O.tableau_problems(g, p, r) and O.state_key(g, p, r) == want, {"N": N, "L": L}, True,
+                          expected={"r": N - L}, observed={"r": r, "problems": O.tableau_problems(g, p, r)})
